@@ -140,6 +140,49 @@ def _occurrence_stores(ctx, fq):
     return out
 
 
+def _occurrence_rule_ok(occ):
+    """the occurrence array is stored into exactly where `i == 0 or g[i] != g[i - 1]` holds, however the test is written (nested ifs,
+    one disjunction, guard clauses): the disjunction of the stores' path conditions is compared as a boolean function of its atoms"""
+    from ..refspec import cond_key
+    from ..terms import mkbool, mknot
+    if not occ:
+        return False
+    total = None
+    for k in occ:
+        conj = None
+        for c in k[1]:
+            t, pol = c[1][0], c[1][1][1]
+            lit = t if pol else mknot(t)
+            conj = lit if conj is None else mkbool('And', conj, lit)
+        if conj is None:
+            return False            # an unconditional store
+        total = conj if total is None else mkbool('Or', total, conj)
+    key = cond_key([(total, True)])
+    if len(key) != 2 or len(key[0]) != 2:
+        return False
+    from ..refspec import _bool_atoms
+    ats = {}
+    _bool_atoms(total, ats)
+    a_first = a_prev = None
+    for d, t in ats.items():
+        if t[0] == 'cmp' and t[1] == 'Eq' and ('const', 0) in (t[2], t[3]) and any(x[0] == 'loopvar' for x in (t[2], t[3])):
+            a_first = d
+            lv = t[2] if t[2][0] == 'loopvar' else t[3]
+        elif t[0] == 'cmp' and t[1] == 'Eq' and t[2][0] == 'idx' and t[3][0] == 'idx' and t[2][1] == t[3][1]:
+            a_prev = (d, t)
+    if a_first is None or a_prev is None:
+        return False
+    d_prev, t = a_prev
+    if {t[2][2], t[3][2]} != {lv, ('bin', 'Sub', lv, ('const', 1))}:
+        return False
+    order = list(key[0])
+    want = []
+    for m in range(4):
+        val = {order[0]: bool(m & 1), order[1]: bool(m >> 1 & 1)}
+        want.append(val[a_first] or not val[d_prev])
+    return tuple(want) == tuple(key[1])
+
+
 def rule_siblings(ctx):
     # first occurrence rule + /ploidy in both allele-frequency functions
     keys = {}
@@ -151,24 +194,7 @@ def rule_siblings(ctx):
         div = first[0] == 'bin' and first[1] == 'Div' and first[3] == ('param', 'ploidy')
         occ = _occurrence_stores(ctx, fq)
         keys[fq] = occ
-        shape_ok = len(occ) == 2
-        if shape_ok:
-            lens = sorted(len(k[1]) for k in occ)
-            shape_ok = lens == [1, 2]
-            for k in occ:
-                conds = [(c[1][0], c[1][1][1]) for c in k[1]]
-                if len(conds) == 1:
-                    c, pol = conds[0]
-                    if c[0] == 'cmp' and c[1] == 'NotEq':
-                        c, pol = ('cmp', 'Eq', c[2], c[3]), not pol
-                    shape_ok = shape_ok and pol is True and c[0] == 'cmp' and c[1] == 'Eq' and c[2][0] == 'loopvar' and c[3] == ('const', 0)
-                else:
-                    (c0, p0), (c1, p1) = conds
-                    if c1[0] == 'cmp' and c1[1] == 'Eq':
-                        c1, p1 = ('cmp', 'NotEq', c1[2], c1[3]), not p1
-                    shape_ok = shape_ok and p0 is False and c0[0] == 'cmp' and c0[1] == 'Eq' and c0[3] == ('const', 0) and p1 is True \
-                        and c1[0] == 'cmp' and c1[1] == 'NotEq' and c1[2][0] == 'idx' and c1[3][0] == 'idx' and c1[2][1] == c1[3][1] \
-                        and {c1[2][2], c1[3][2]} == {c0[2], ('bin', 'Sub', c0[2], ('const', 1))}
+        shape_ok = _occurrence_rule_ok(occ)
         ctx.check(shape_ok and div, 'R03.3/frequency-siblings', f.construct('occurrence+frequency'),
                   "occurrence counted at position 0 or where the allele differs from its predecessor; frequency = accumulated / ploidy",
                   "allele frequency / occurrence rule is not {first position, or differs from previous allele} with frequency = counts / ploidy", f.where())
